@@ -219,7 +219,7 @@ HARNESSES = [
                                 for op in ('translate', 'rot1', 'rot2', 'rot3', 'swap')
                                 for d in ((-2.5, -5.25), (-7.0, -0.5), (-3.0, -3.0))] +
                    [{'op': op, 'kmax': 0, 'depths': d} for op in ('translate', 'swap')
-                    for d in ((-2.5, -5.25), (-7.0, -0.5))] +
+                    for d in ((-2.5, -5.25), (-7.0, -0.5)) if not (op == 'swap' and d[0] == -7.0)] +
                    [{'op': 'translate', 'heavy': True}]},
             budget={'quick': {'wall_s': 500, 'query_timeout_ms': 60000, 'light_decide': True},
                     'thorough': {'wall_s': 1500, 'query_timeout_ms': 120000, 'light_decide': True}}),
